@@ -1,16 +1,18 @@
 from typing import TypeVar
 
 from ...model_tools.definitions import InputShape, OutputShape
-from ...provider.essential import Mediator
+from ...provider.essential import CannotProvide, Mediator
 from ...provider.methods_provider import MethodsProvider, method_handler
 from ..model.crown_definitions import (
     BranchInpCrown,
     BranchOutCrown,
     DictExtraPolicy,
+    InpListCrown,
     InputNameLayout,
     InputNameLayoutRequest,
     LeafInpCrown,
     LeafOutCrown,
+    OutListCrown,
     OutputNameLayout,
     OutputNameLayoutRequest,
     Sieve,
@@ -53,6 +55,12 @@ class BuiltinNameLayoutProvider(MethodsProvider):
                 extra_policies=extra_policies,
                 as_list=self._structure_maker.empty_as_list_inp(mediator, request),
             )
+        if extra_move is not None and isinstance(crown, InpListCrown):
+            raise CannotProvide(
+                "Can not use collecting extra_in with list mapping",
+                is_terminal=True,
+                is_demonstrative=True,
+            )
         return InputNameLayout(crown=crown, extra_move=extra_move)
 
     def _create_input_crown(
@@ -92,6 +100,12 @@ class BuiltinNameLayoutProvider(MethodsProvider):
                 shape=request.shape,
                 path_to_sieve=path_to_sieve,
                 as_list=self._structure_maker.empty_as_list_out(mediator, request),
+            )
+        if extra_move is not None and isinstance(crown, OutListCrown):
+            raise CannotProvide(
+                "Can not use extra_out with list mapping",
+                is_terminal=True,
+                is_demonstrative=True,
             )
         return OutputNameLayout(crown=crown, extra_move=extra_move)
 
